@@ -246,10 +246,27 @@ def fwdN (tr : Tr) (v : RawVec) : Nat → Nat → Word → Nat → Outcome (Nat 
       fwdN tr v fuel (index + 1) w (rr - ones)
     else ok (index, word, rr)
 
-def nthQ (tr : Tr) (m : Mode) (b : BitVector) (it : OneIterSt) (n : Nat) :
+/-- `nth` as first coded: `next.0 + n >= limit.0` (finding F1: the sum overflows for large `n`) -/
+def nthQOld (tr : Tr) (m : Mode) (b : BitVector) (it : OneIterSt) (n : Nat) :
     Outcome (Option (Nat × Nat) × OneIterSt) := do
   let s ← addM m it.next.1 n
   if s ≥ it.limit.1 then return (none, { it with next := it.limit }) else
+  let index := it.next.2 / 64
+  let offset := it.next.2 % 64
+  let w ← wordT tr b.data index
+  let (index, word, rr) ← fwdN tr b.data (b.data.data.size + 1) index (w &&& ~~~ lowSet offset) n
+  let o ← selWord word rr
+  let pos ← bitOffset m index o
+  let r1 ← addM m s 1
+  let p1 ← addM m pos 1
+  return (some (s, pos), { it with next := (r1, p1) })
+
+/-- `nth` (repaired): `n >= limit.0 - next.0` -/
+def nthQ (tr : Tr) (m : Mode) (b : BitVector) (it : OneIterSt) (n : Nat) :
+    Outcome (Option (Nat × Nat) × OneIterSt) := do
+  let remaining ← subM m it.limit.1 it.next.1
+  if n ≥ remaining then return (none, { it with next := it.limit }) else
+  let s ← addM m it.next.1 n
   let index := it.next.2 / 64
   let offset := it.next.2 % 64
   let w ← wordT tr b.data index
@@ -296,9 +313,18 @@ def selectIterT (tr : Tr) (m : Mode) (b : BitVector) (r : Nat) : Outcome OneIter
       let p ← s.selectU tr m b.data r
       return ⟨(r, p), (b.countT tr, b.len)⟩
 
-/-- `predecessor`: note the unclamped `value + 1` -/
-def predecessorQ (m : Mode) (b : BitVector) (value : Nat) : Outcome OneIterSt := do
+/-- `predecessor` as first coded: unclamped `value + 1` (finding F2) -/
+def predecessorQOld (m : Mode) (b : BitVector) (value : Nat) : Outcome OneIterSt := do
   let v1 ← addM m value 1
+  let rank ← b.rankQ v1
+  if rank = 0 then return OneIterSt.emptyIter .ident b else b.selectIterT .ident m (rank - 1)
+
+/-- `usize::saturating_add` -/
+def satAdd (a b : Nat) : Nat := min (a + b) (U64 - 1)
+
+/-- `predecessor` (repaired): `value.saturating_add(1)` -/
+def predecessorQ (m : Mode) (b : BitVector) (value : Nat) : Outcome OneIterSt := do
+  let v1 := satAdd value 1
   let rank ← b.rankQ v1
   if rank = 0 then return OneIterSt.emptyIter .ident b else b.selectIterT .ident m (rank - 1)
 
